@@ -306,6 +306,25 @@ Definition unslice (scoped : bool) (n : Z) (ts : list token) : option (heap * li
   | None => None
   end.
 
+(* ------------------------------------------------------------------ discarding a rejected sequence *)
+(* Banana.handleData while discardCount = d > 0 (an unslicer raised a Violation: the rest of its sequence is dropped):
+   every OPEN still takes an object number (the counter is advanced before the rejection test) and deepens the
+   discard, CLOSE ends one level, every other token is dropped.  Result: discardCount, objectCounter, unread tokens. *)
+Fixpoint discard (ts : list token) (d : Z) (cnt : Z) : Z * Z * list token :=
+  match ts with
+  | [] => (d, cnt, [])
+  | t :: r =>
+    if d <=? 0 then (d, cnt, ts)
+    else match t with
+         | TOpen _ => discard r (d + 1) (if open_counts_when_discarded then cnt + 1 else cnt)
+         | TClose _ => discard r (d - 1) cnt
+         | _ => discard r d cnt
+         end
+  end.
+
+Fixpoint count_opens (ts : list token) : Z :=
+  match ts with [] => 0 | TOpen _ :: r => 1 + count_opens r | _ :: r => count_opens r end.
+
 (* ------------------------------------------------------------------ the graph a canonical term denotes *)
 
 Definition val_of (n : Z) (t : obj) : value :=
